@@ -24,6 +24,51 @@ ENGINES = {
     },
 }
 
+def _prepare_e2(tier):
+    import corpus
+    return corpus.main(tier)
+
+
+ENGINES['e2'] = {
+    'dir': os.path.join(VERIF, 'kani', 'e2'),
+    'crate': 'verif-e2',
+    'bin': 'verif-e2',
+    'unwind': 48,
+    'harness_prefix': 'harnesses_gen::',
+    'prepare': _prepare_e2,
+    # generated sources are part of the hash: they are a function of /repo's typify-impl
+    'hash_paths': [os.path.join(REPO, 'typify-impl'), os.path.join(REPO, 'Cargo.toml'), os.path.join(REPO, 'Cargo.lock'),
+                   os.path.join(VERIF, 'kani', 'e2'), os.path.join(VERIF, 'kani', 'e1', 'src', 'src.rs'), os.path.join(VERIF, 'genner', 'src'),
+                   os.path.join(VERIF, 'lib', 'corpus.py'), os.path.join(VERIF, 'lib', 'e2gen.py')],
+}
+
+
+def e2_harnesses():
+    import json
+    p = os.path.join(VERIF, 'kani', 'e2', 'src', 'gen', 'harnesses.json')
+    if not os.path.exists(p):
+        return [], {}
+    j = json.load(open(p))
+    return j['harnesses'], j.get('skipped', {})
+
+
+def e2_select(pid, tier, rng, core, sample_n, families=None):
+    """Harnesses of engine E2 serving property `pid`: in the thorough tier all of
+    them; in the quick tier those matching a `core` regex plus `sample_n` of the
+    remaining quick-marked ones chosen by the seed."""
+    import re
+    hs, _ = e2_harnesses()
+    mine = [h for h in hs if pid in h['props'] and (families is None or h['name'].split('_')[1] in families)]
+    if tier == 'thorough':
+        sel = mine
+    else:
+        corer = re.compile(core)
+        fixed = [h for h in mine if corer.search(h['name'])]
+        rest = [h for h in mine if h['tier'] == 'quick' and not corer.search(h['name'])]
+        sel = fixed + rng.sample(rest, min(sample_n, len(rest)))
+    return [('e2', h['name'], h['descr']) for h in sel]
+
+
 INT_FORMATS = ['int8', 'uint8', 'int16', 'uint16', 'int', 'int32', 'uint', 'uint32', 'int64', 'uint64']
 C10_SYMBOLIC = ('minimum, maximum, exclusiveMinimum, exclusiveMaximum: each absent or any finite f64; multipleOf in {absent, 2}; '
                 'default: absent or any integer of i64 ∪ u64; probe integer: any of i64 ∪ u64')
@@ -53,7 +98,7 @@ def match_known(known, harness, failed_check, replay):
         if pred:
             inputs = next((v.get('inputs') for v in replay.values() if v.get('inputs')), {}) or {}
             try:
-                if not eval(pred, {'__builtins__': {}}, {'inputs': inputs}):  # noqa: S307 (file is committed, not user input)
+                if not eval(pred, {'__builtins__': {}, 'abs': abs, 'int': int, 'float': float, 'len': len}, {'inputs': inputs}):  # noqa: S307 (file is committed, not user input)
                     continue
             except Exception:  # noqa
                 continue
@@ -176,6 +221,81 @@ PLAN['C09'] = {
                     'No state graph is explored, hence level "other".'),
 }
 
+def width_patterns(kmax):
+    import itertools
+    out = []
+    for k in range(0, kmax + 1):
+        for seq in itertools.product([1, 2, 3, 4], repeat=k):
+            out.append(''.join(map(str, seq)) or 'empty')
+    return out
+
+
+def c05_units(tier, rng):
+    pats = width_patterns(3)
+    if tier != 'thorough':
+        # quick: the boundary witnesses (multi-byte vs count) always, plus a seed-chosen sample
+        fixed = ['empty', '1', '2', '3', '4', '21', '13', '444']
+        rest = [p for p in pats if p not in fixed]
+        pats = fixed + rng.sample(rest, 6)
+    return [('e1', 'c05_sv_' + p, f'string of {0 if p == "empty" else len(p)} Unicode scalar values with UTF-8 widths {p}: every code point of each width class; '
+             'minLength, maxLength: each absent or any u32') for p in pats]
+
+
+def c09_units(tier, rng):
+    hs = [('c09_it_00', 'type keyword absent on both sides; probe type: any of the 7 JSON types'),
+          ('c09_it_01', 'absent x single type (any of 7); probe type any'),
+          ('c09_it_02', 'absent x list of two types (any of 7 each); probe type any'),
+          ('c09_it_11', 'single x single (49 pairs); probe type any'),
+          ('c09_it_12', 'single x list of two; probe type any'),
+          ('c09_it_13', 'single x list of three; probe type any'),
+          ('c09_array_len', 'minItems/maxItems of both operands each absent or any u32, uniqueItems of both in {absent,false,true}; probe length any u32'),
+          ('c09_format', 'format of both operands from {absent, ip, ipv4, ipv6, int8, int32, uuid, date-time, x}')]
+    return [('e1', h, d) for h, d in hs]
+
+
+PLAN['C05'] = {
+    'engines': ['e1'],
+    'units': c05_units,
+    'timeout': {'quick': 900, 'thorough': 1800},
+    'technique': 'bounded symbolic execution + SAT (Kani/CBMC) of StringValidator over all code points of strings up to 3 scalar values',
+    'level_text': 'bounded symbolic verification (Kani/CBMC) of the generation-time enum-value length filter (util::StringValidator) for every string of up to 3 Unicode scalar values (all code points, every UTF-8 width pattern) and all u32 min/max; the generated-code half of C05 is checked by engine E2 where built',
+    'level_note': "trusts Kani's MIR-to-goto translation, CBMC and CaDiCaL; strings are built valid-by-construction (from_utf8_unchecked over bytes encoded from assumed-valid code points)",
+    'functions': ['typify_impl::util::StringValidator::{new, is_valid} (typify-impl/src/util.rs) via verif_hooks::string_validator_is_valid'],
+    'bounds': {'strings': 'all strings of <= 3 Unicode scalar values: 85 UTF-8 width patterns, one harness each, every code point of the width class symbolic (quick: 8 fixed boundary patterns + 6 seed-chosen; thorough: all 85)',
+               'minLength/maxLength': 'each absent or any u32', 'unwind': 24},
+    'outside': ['strings longer than 3 scalar values', 'pattern (regress is not executed symbolically)',
+                'the generated-code enforcement (FromStr/TryFrom/Deserialize of constrained newtypes, enums, deny lists, required members, closed objects, tuple arity): engine E2',
+                '"no public constructor or public field" (a syntactic scan of rendered tokens, not a solver question)'],
+    'assumptions': ['code points are assumed inside their UTF-8 width class, surrogates excluded', 'CBMC/Kani translation of the compiled MIR is trusted'],
+    'explanation': ('Bounded symbolic verification (Kani/CBMC, SAT) of the real StringValidator compiled from /repo: for every string of up to 3 Unicode scalar values '
+                    '(concrete UTF-8 byte layout per harness, all code points symbolic) and every minLength/maxLength in Option<u32>, is_valid(s) equals '
+                    'min <= number of scalar values <= max. This is the filter that decides which enum values survive a string enum with length constraints. '
+                    'No state graph is explored, hence level "other".'),
+}
+
+PLAN['C09'] = {
+    'engines': ['e1'],
+    'units': c09_units,
+    'timeout': {'quick': 900, 'thorough': 1800},
+    'technique': 'bounded symbolic execution + SAT (Kani/CBMC) of the leaf merge kernels: intersection and commutativity',
+    'level_text': 'bounded symbolic verification (Kani/CBMC) of three leaf kernels that allOf merging bottoms out in (merge_so_instance_type per operand layout, merge_so_array length/uniqueness bounds, merge_so_format): merged constraint admits a probe iff both operands do, in both argument orders, Err iff nothing is admitted. Everything else in merge.rs is outside the claim',
+    'level_note': "trusts Kani's MIR-to-goto translation, CBMC and CaDiCaL; draft-07 reading of `type` where number admits integers",
+    'functions': ['typify_impl::merge::merge_so_instance_type', 'typify_impl::merge::merge_so_array (items absent)', 'typify_impl::merge::merge_so_format',
+                  'typify_impl::merge::choose_value', 'via verif_hooks::{merge_instance_type, merge_array, merge_format}'],
+    'bounds': {'instance types': 'operand layouts absent / single / list of 2 / list of 3 in the 6 combinations that do not build a data-dependent heap set (list x list goes through BTreeSet and does not return under CBMC: measured, outside); every type value symbolic over the 7 JSON types; probe type symbolic',
+               'arrays': 'minItems/maxItems each absent or any u32 on both sides, uniqueItems in {absent,false,true}, items/additionalItems/contains absent; probe length any u32',
+               'formats': '9 x 9 pairs over {absent, ip, ipv4, ipv6, int8, int32, uuid, date-time, x} (symbolic index): order independence, idempotence, identity only',
+               'unwind': 24},
+    'outside': ['object/property merging, $ref resolution with `roughly`, enum-value merging, number/string validation merging (unimplemented!() in typify)',
+                'distribution over anyOf/oneOf/not', 'permutations of >= 3 subschemas', 'list x list instance types (BTreeSet under CBMC: no verdict in 20 min)',
+                'array items/additionalItems/contains', 'the link from the merged schema to the accept-vector of the compiled type'],
+    'assumptions': ['draft-07 semantics: a value of JSON type integer is admitted by `type: number`', 'CBMC/Kani translation of the compiled MIR is trusted'],
+    'explanation': ('Bounded symbolic verification (Kani/CBMC, SAT) of the real leaf merge functions compiled from /repo. For the `type` keyword: for all type values in each operand '
+                    'layout and every probe type, merge(a,b) admits the probe iff a and b both admit it, merge(b,a) agrees, and Err is returned exactly when no type is admitted. '
+                    'For arrays: the same with all u32 minItems/maxItems and a probe length, plus uniqueItems as a conjunction. For formats: commutativity, idempotence, identity. '
+                    'No state graph is explored, hence level "other".'),
+}
+
 # Claimed in DESIGN.md but not built yet: listed as not applicable until their
 # check exists (MANIFEST must never claim what does not run).
 NOT_YET = {
@@ -186,3 +306,131 @@ NOT_YET = {
     'C14': 'planned second wave (engine E2): not built yet in this snapshot',
     'C18': 'planned (engine E2): not built yet in this snapshot',
 }
+
+
+# ------------------------------------------------------------------ engine E2 properties
+
+E2_TRUST = ("trusts Kani's MIR-to-goto translation, CBMC and CaDiCaL; serde_json is replaced by an in-memory token document with serde Deserializer/Serializer that "
+            "mirror serde_json::Value's data-model mapping (kani/e2/src/tok.rs; replays cross-check against serde_json::from_str); the oracle is our own draft-07 reading "
+            "of the corpus schemas (lib/e2gen.py, kani/e2/src/sch.rs), independent of typify")
+E2_STUBS = ['serde_json text/Value layer replaced by the token document (kani/e2/src/tok.rs) with a unit error type (messages dropped)',
+            'alloc::fmt::format -> empty string (error-message formatting is not the subject)',
+            'serde access protocol (no element after the end, no value without key) stated as an assumption to prune phantom loop iterations']
+E2_ASSUME = ['strings are valid UTF-8 by construction: concrete byte layout per harness, symbolic code points inside their width class (surrogates excluded)',
+             'presence of object members, array lengths and the choice of string-enum members are concrete per harness (enumerated by the generator); everything else is symbolic',
+             'the schema dimension is the finite corpus of lib/corpus.py (listed in coverage.corpus)',
+             'CBMC/Kani translation of the compiled MIR is trusted']
+E2_BOUNDS = {
+    'schemas': 'the corpus of lib/corpus.py: string enums (incl. members whose identifier differs from the raw value), constrained strings (6 min/max combinations), string alias, string/integer deny lists, integer enums, flat structs (required/optional/defaulted/nullable/renamed members, open and closed), integer formats and bounds as members, nested structs, tuples, arrays, nullable objects',
+    'instances': 'per harness: concrete presence mask / array length / string width pattern; symbolic: every integer (i64 ∪ u64), boolean, null-vs-value choice of scalar nullables, every code point of every string',
+    'strings': 'free strings of <= 3 Unicode scalar values per leaf (quick: selected width patterns; thorough: all 85 for enums, all patterns up to maxLength+1 for constrained strings)',
+    'documents': '<= 40 tokens, <= 64 string bytes',
+    'unwind': 48,
+}
+E2_OUTSIDE = ['every schema not in the corpus', 'maps/sets (HashMap/HashSet do not return under CBMC), flattened members, untagged/internally/adjacently tagged enums, $ref recursion',
+              'pattern, string formats (uuid, date-time, ip: third-party parsers)', 'JSON text level (number lexing, escapes): serde_json is not executed symbolically',
+              'rendered-token obligations (derive lists, visibility, names): not a solver question']
+
+
+def corpus_list():
+    import corpus
+    return [f"{c['id']} ({c['kind']})" for c in corpus.CASES]
+
+
+def mk_e2(pid, units, technique, level_text, functions, explanation, extra_outside=(), engines=('e2',), timeout=None):
+    return {
+        'engines': list(engines),
+        'units': units,
+        'timeout': timeout or {'quick': 900, 'thorough': 2400},
+        'technique': technique,
+        'level_text': level_text,
+        'level_note': E2_TRUST,
+        'functions': functions,
+        'bounds': E2_BOUNDS,
+        'outside': E2_OUTSIDE + list(extra_outside),
+        'assumptions': E2_ASSUME,
+        'stubs': E2_STUBS,
+        'explanation': explanation + ' The code under test is regenerated by the real typify (genner, /repo working tree) on every run. For all instances is closed by the solver; for all schemas is the stated finite corpus. No state graph is explored, hence level "other".',
+    }
+
+
+GEN_FUNCS = ['typify_impl::TypeSpace::{add_ref_types, add_type, to_stream} (run natively by /verif/genner on every check)',
+             'the generated code: Deserialize/Serialize (serde_derive expansion of the emitted attributes), FromStr, TryFrom, Display, builder module, defaults module']
+
+PLAN['C02'] = mk_e2(
+    'C02', lambda tier, rng: e2_select('C02', tier, rng, r'_inst_\w+_(p|p2)$', 16, {'inst'}),
+    'bounded symbolic execution + SAT (Kani/CBMC) of generated Deserialize impls over schema-shaped instances with symbolic leaves',
+    'bounded symbolic verification (Kani/CBMC) of the code typify generates for a stated schema corpus: every instance of the harness\'s concrete shape (all integers, booleans, strings up to the width pattern) that our draft-07 evaluator classifies valid deserializes into the generated type',
+    GEN_FUNCS,
+    'Bounded symbolic verification of generated deserializers: for each corpus schema and each enumerated instance shape the solver shows valid(S, v) => T_S::deserialize(v) is Ok for all leaf values.')
+PLAN['C03'] = mk_e2(
+    'C03', lambda tier, rng: e2_select('C03', tier, rng, r'_rt_\w+_(p|p0)$|_in_|_id_\w+$', 10),
+    'bounded symbolic execution + SAT (Kani/CBMC) of generated Deserialize -> Serialize -> Deserialize over symbolic valid instances',
+    'bounded symbolic verification (Kani/CBMC) of the round trip through generated code for a stated corpus: declared members are kept with equal values, only null/empty optional members are dropped, only schema defaults are added, and serializing the defaults-filled instance again reproduces the same document',
+    GEN_FUNCS,
+    'Bounded symbolic verification of the round trip: for each corpus schema and shape, for all valid leaf values: w = ser(de(v)) keeps every declared member with an equal value, adds only schema defaults, and ser(de(v + defaults)) == w.',
+    extra_outside=['idempotence is checked on v + defaults (concrete layout) instead of re-reading w, whose member presence is symbolic; that omitted members may be omitted is covered by the instance harnesses with those members absent'])
+PLAN['C11'] = mk_e2(
+    'C11', lambda tier, rng: e2_select('C11', tier, rng, r'_se_\w+_(e|1|2|21)$|_sn_\w+_(x|t)$|_sp_', 24),
+    'bounded symbolic execution + SAT (Kani/CBMC) of generated FromStr/TryFrom/Display vs Deserialize/Serialize over all code points',
+    'bounded symbolic verification (Kani/CBMC) of the string conversions typify generates (string enums, constrained and plain string newtypes): for every string of the harness\'s width pattern parse, the three TryFrom flavours and Deserialize agree, accepted values serialize back to the same string, Display prints what Serialize writes',
+    GEN_FUNCS,
+    'Bounded symbolic verification of generated string conversions: for all strings of up to 3 Unicode scalar values (all code points) and every member with one scalar substituted/appended/removed: s.parse().is_ok() == deserialize(s).is_ok(), TryFrom agrees, values equal, to_string() == serialized string.')
+PLAN['C14'] = mk_e2(
+    'C14', lambda tier, rng: e2_select('C14', tier, rng, r'_eq_(pt|nested)_\w+_p$', 6),
+    'bounded symbolic execution + SAT (Kani/CBMC): two-program equivalence of the types generated under two settings, on one symbolic instance',
+    'bounded symbolic verification (Kani/CBMC) of the behavioural sentence of C14 only: for the corpus structs/tuples, the type generated under default settings and under {builder, extra derive, BTreeMap map type, a patch renaming another definition} accept the same instances and write the same JSON; the syntactic obligations (names, derive lists, use sites) are facts about rendered tokens and are outside',
+    GEN_FUNCS + ['typify_impl::TypeSpaceSettings::{with_struct_builder, with_derive, with_map_type, with_patch}'],
+    'Bounded symbolic two-program equivalence: the same symbolic instance is fed to the type generated under default settings and under another setting; accept/reject and the serialized document must agree.',
+    extra_outside=['replace / convert settings (the affected type changes by design)', 'all syntactic obligations of C14'])
+PLAN['C18'] = mk_e2(
+    'C18', lambda tier, rng: e2_select('C18', tier, rng, r'_bd_\\w+_(p|p0|m0|m1|m2)$', 2),
+    'bounded symbolic execution + SAT (Kani/CBMC) of the generated builder module: setter subsets x symbolic values',
+    'bounded symbolic verification (Kani/CBMC) of the generated builder for the corpus structs: for each enumerated subset of setters called and all values, try_into succeeds iff every property without default is set and every supplied value converts; the built value equals deserializing an object with the same members; struct -> builder -> struct is the identity. The text of the error message is outside (formatting is stubbed)',
+    GEN_FUNCS,
+    'Bounded symbolic verification of generated builders: setters (names and field types read from the generated code itself) are called for an enumerated subset of members with symbolic values, integers through the wider i64/u64 so that conversion failure is reachable.',
+    extra_outside=['"error naming the property": message text is built by format!, which is stubbed'])
+
+
+def c05_all(tier, rng):
+    u = c05_units(tier, rng)
+    u += e2_select('C05', tier, rng, r'_sc_len_2_3_(e|1|21|22|222|2222)$|_sd_notab_(1|m0)$|_in_|_id_\w+$|_inst_pt_closed_(x0|p)$|_inst_(pair|triple)_a0[pm]$', 24)
+    return u
+
+
+def c06_all(tier, rng):
+    u = c10_units(tier, rng)
+    if tier != 'thorough':
+        u = u[:1] + u[2:4]       # quick: no-format + two formats (the full set is C10's quick tier)
+    u += e2_select('C06', tier, rng, r'_rt_defaults_(p0|p)$|_bd_defaults_b_(p0|m0)$', 8)
+    return u
+
+
+PLAN['C05'] = dict(PLAN['C05'])
+PLAN['C05'].update({
+    'engines': ['e1', 'e2'],
+    'units': c05_all,
+    'level_text': PLAN['C05']['level_text'].replace('the generated-code half of C05 is checked by engine E2 where built',
+                                                  'and of the generated FromStr/TryFrom/Deserialize of the corpus types (engine E2): accepted iff the represented constraint holds'),
+    'functions': PLAN['C05']['functions'] + GEN_FUNCS,
+    'stubs': E2_STUBS,
+    'bounds': dict(PLAN['C05']['bounds'], e2=E2_BOUNDS),
+    'outside': ['strings longer than 3 scalar values (E1) / the width patterns listed per harness (E2)', 'pattern (regress is not executed symbolically)',
+                'tag values of tagged unions (tagged-enum deserialisation is outside the corpus)',
+                '"no public constructor or public field" (a syntactic scan of rendered tokens, not a solver question)'] + E2_OUTSIDE,
+    'assumptions': PLAN['C05']['assumptions'] + E2_ASSUME,
+    'explanation': PLAN['C05']['explanation'].replace(' No state graph is explored, hence level "other".', '') +
+    ' Engine E2 adds the generated-code half: for string enums, constrained strings, string/integer deny lists, integer enums, required members, closed objects, tuple arity and scalar JSON types of the corpus, '
+    'Deserialize/TryFrom/FromStr accept exactly what the constraint admits (single-constraint violations are rejected). No state graph is explored, hence level "other".',
+})
+PLAN['C06'] = dict(PLAN['C06'])
+PLAN['C06'].update({
+    'engines': ['e1', 'e2'],
+    'units': c06_all,
+    'technique': 'bounded symbolic execution + SAT (Kani/CBMC): integer-default range kernel (all values) and realised defaults of generated code',
+    'level_text': 'bounded symbolic verification (Kani/CBMC): (E1) an accepted integer default is a value of the selected type and an out-of-range default is an error, for all f64 bounds and all i64/u64 defaults; (E2) for corpus structs with defaulted members, deserializing an object without the member and the builder both yield the schema default, independent of all other (symbolic) members. Non-integer default validation/rendering is outside',
+    'functions': C10_FUNCS + GEN_FUNCS,
+    'stubs': E2_STUBS,
+    'outside': C10_OUTSIDE + ['validation/rendering of non-integer defaults (defaults.rs/value.rs walk serde_json::Value and render tokens: out of reach)', 'Default impls of named types'] + E2_OUTSIDE,
+    'assumptions': PLAN['C10']['assumptions'] + E2_ASSUME,
+})
